@@ -368,6 +368,9 @@ func GenListV(t *rapid.T, cfg TreeCfg, depth int) V {
 	if cfg.LongLists && oneIn(t, 40, "longlist") {
 		// a long list of cheap scalars: lengths around powers of two and multiples of small block sizes
 		n := []int{60, 63, 64, 65, 66, 67, 96, 100, 127, 128, 129, 130, 255, 256, 257, 258, 259}[drawIdx(t, 17, "longn")]
+		if oneIn(t, 12, "hugelist") {
+			n = []int{1023, 1024, 1025, 2049, 4097}[drawIdx(t, 5, "hugen")]
+		}
 		out := V{K: KList, L: make([]V, 0, n)}
 		for i := 0; i < n; i++ {
 			switch drawInt(t, 0, 3, "lk") {
